@@ -345,22 +345,39 @@ Proof.
       * rewrite p_counts_prefix_sum by lia. split; [|exact Htot]. rewrite Hle. reflexivity.
 Qed.
 
-(** UDist.PMF with T == nil at an integral U = u (q = 4u) *)
-Theorem pmf_untied_exact t n1 n2 u : has_ties t = false -> 0 <= n1 -> 0 <= n2 ->
-  frac_eq (pmf n1 n2 t (4 * u)) (count_eq (ones (n1 + n2)) n1 (2 * u)) (total (ones (n1 + n2)) n1).
+(** UDist.PMF with T == nil (after hooks/fix_c11_udist_pmf_untied_grid.diff) at EVERY
+    argument x = q / 4: the mass at x rounded down to the grid of half-integers, 2U' = q / 2 *)
+Theorem pmf_untied_exact_grid t n1 n2 q : has_ties t = false -> 0 <= n1 -> 0 <= n2 ->
+  frac_eq (pmf n1 n2 t q) (count_eq (ones (n1 + n2)) n1 (q / 2)) (total (ones (n1 + n2)) n1).
 Proof.
   intros Hties H1 H2. set (T := ones (n1 + n2)).
   assert (HT0 : Forall (fun y => 0 <= y) T) by apply ones_nonneg.
   assert (HTs : zsum T = n1 + n2) by (apply ones_sum; lia).
   pose proof (total_pos T n1 HT0 ltac:(lia)) as Htot.
+  pose proof (Z.div_mod q 2 ltac:(lia)) as Hdm. pose proof (Z.mod_pos_bound q 2 ltac:(lia)) as Hmb.
   unfold pmf, frac_eq.
-  destruct (Z.ltb_spec (4 * u) 0) as [Hq|Hq]; cbn [orb].
+  destruct (Z.ltb_spec q 0) as [Hq|Hq]; cbn [orb].
   - cbn [dres_frac]. rewrite count_eq_out by (assumption || lia). lia.
-  - destruct (Z.leb_spec (4 * (n1 * n2) + 2) (4 * u)) as [Hq2|Hq2].
+  - destruct (Z.leb_spec (4 * (n1 * n2) + 2) q) as [Hq2|Hq2].
     + cbn [dres_frac]. rewrite count_eq_out; [lia | assumption |]. rewrite HTs. right.
       replace (n1 + n2 - n1) with n2 by lia. lia.
-    + rewrite Hties. cbn [dres_frac]. replace (4 * u / 4) with u by (symmetry; rewrite Z.mul_comm; apply Z.div_mul; lia).
-      rewrite untied_dp_correct by lia. unfold total in *. rewrite HTs in *. split; [reflexivity | exact Htot].
+    + rewrite Hties. destruct (Z.odd (q / 2)) eqn:Hodd.
+      * cbn [dres_frac]. unfold T. rewrite count_eq_ones_odd by exact Hodd. lia.
+      * cbn [dres_frac].
+        assert (Hev : q / 2 = 2 * (q / 4)).
+        { rewrite <- Z.negb_even in Hodd. apply negb_false_iff, Z.even_spec in Hodd. destruct Hodd as [k Hk].
+          rewrite Hk. f_equal. replace 4 with (2 * 2) by lia. rewrite <- Z.div_div by lia. rewrite Hk.
+          symmetry. rewrite Z.mul_comm. apply Z.div_mul. lia. }
+        rewrite Hev. rewrite untied_dp_correct by (try apply Z.div_pos; lia).
+        unfold total in *. rewrite HTs in *. split; [reflexivity | exact Htot].
+Qed.
+
+(** ... in particular at an integral U = u (q = 4u) *)
+Theorem pmf_untied_exact t n1 n2 u : has_ties t = false -> 0 <= n1 -> 0 <= n2 ->
+  frac_eq (pmf n1 n2 t (4 * u)) (count_eq (ones (n1 + n2)) n1 (2 * u)) (total (ones (n1 + n2)) n1).
+Proof.
+  intros Hties H1 H2. pose proof (pmf_untied_exact_grid t n1 n2 (4 * u) Hties H1 H2) as H.
+  replace (4 * u / 2) with (2 * u) in H by (apply Z.div_unique with 0; lia). exact H.
 Qed.
 
 (** ** exactness range: when C(n1+n2, n1) < 2^53 every count, every partial sum and
